@@ -66,8 +66,8 @@ func scanMethods[T val](tok string, verb byte, h uint64) []scanOutcome {
 	if n := utf8.RuneCountInString(tok); (wide == "5" && n > 5) || (wide == "600" && n > 600) {
 		wide = "" // a width shorter than the token cuts the token: not the situation described here
 	}
-	if verb == 'c' && wide == "5" {
-		wide = "" // fmt does not skip blanks before %c, so a small width would count the leading blanks
+	if verb == 'c' {
+		wide = "" // fmt does not skip blanks before %c, so a width would count the leading blanks and may cut the token
 	}
 	pv := "%" + string(verb)
 	wv := "%" + wide + string(verb)
@@ -184,7 +184,9 @@ func scanLine[T val](line, tok string, verb byte) string {
 
 type scanArea struct{}
 
-func (scanArea) Run(line string) string {
+func (scanArea) Run(line string) string { return guarded(func() string { return scanRun(line) }) }
+
+func scanRun(line string) string {
 	f := strings.Fields(line)
 	if len(f) != 4 || f[1] != "scan" || len(f[2]) != 1 {
 		return "bad-op"
@@ -245,7 +247,7 @@ func genSpec(r *hx.Rng, letter byte, digits int) string {
 	case 1:
 		spec += "0" + fmt.Sprint(r.Range(1, 140))
 	case 2:
-		spec += fmt.Sprint(r.Range(1, 60))
+		spec += fmt.Sprint(hx.Pick(r, []int{r.Range(1, 60), 64, 65, 128, 129, 130, 256, 300}))
 	case 3:
 		spec += "." + fmt.Sprint(digits+r.Range(0, 3))
 	case 4:
@@ -269,11 +271,11 @@ func (scanArea) Gen(r *hx.Rng, n int, _ string, emit func(string)) {
 			letter := hx.Pick(r, []byte(baseLetters))
 			var spec string
 			if r.Bool() {
-				v := num.Uint128FromComponents(hi, lo)
+				v := mkU(hi, lo)
 				spec = genSpec(r, letter, len(fmt.Sprintf("%"+string(letter), v)))
 				t = fmt.Sprintf(spec, v)
 			} else {
-				v := num.Int128FromComponents(hi, lo)
+				v := mkI(hi, lo)
 				spec = genSpec(r, letter, len(strings.TrimPrefix(fmt.Sprintf("%"+string(letter), v), "-")))
 				t = fmt.Sprintf(spec, v)
 			}
